@@ -77,7 +77,8 @@ def program_strategy(draw, max_ops=30, removal_heavy=False):
         (7, data_op("depth")),
         (6, data_op("interval")),
         (4, st.fixed_dictionaries({"op": st.just("update"), "data": idx, "vals": vals})),
-        (1, st.fixed_dictionaries({"op": st.just("rename_hole"), "hole": idx, "name": st.sampled_from(["r1", "Ωr", "r/2"])})),
+        (2, st.fixed_dictionaries({"op": st.just("rename_hole"), "hole": idx, "name": st.sampled_from(["r1", "Ωr", "r/2"]),
+                                   "in_copy": st.booleans()})),
         (2, st.fixed_dictionaries({"op": st.just("rename_data"), "data": idx, "name": name})),
         (4, st.fixed_dictionaries({"op": st.just("remove_data"), "data": idx, "via": st.sampled_from(["ws", "parent"])})),
         (3, st.fixed_dictionaries({"op": st.just("remove_hole"), "hole": idx, "via": st.sampled_from(["ws", "parent"])})),
@@ -470,11 +471,15 @@ class ConcatRun:
             self.stats["shared_name_mutation"] = True
 
     def op_rename_hole(self, op):
-        pick = self.pick(self.all_holes(), op["hole"])
+        world = 1 if op.get("in_copy") and self.all_holes(1) else 0  # a hole of a group copied to the other workspace
+        pick = self.pick(self.all_holes(world), op["hole"])
         if pick is None:
             return False
-        _, hole = pick
-        self.call("Drillhole", setattr, self.ent(hole.uid), "name", op["name"])
+        grp, hole = pick
+        if world:
+            self.touched = set()
+            self.res.label("rename_hole:in-second-workspace")
+        self.call("Drillhole", setattr, self.ent(hole.uid, world), "name", op["name"])
         hole.name = op["name"]
         return True
 
@@ -487,7 +492,19 @@ class ConcatRun:
         self.touched = {grp.uid}
         new = op["name"]
         if new in hole.names():
-            return False
+            if new == name or self.pid != "C04":
+                return False
+            # a name already used on the hole has to be refused - and the refusal must not cost the data its values
+            data = self.ent(hole.uid).get_data(name)
+            if not data:
+                return False
+            try:
+                data[0].name = new
+            except Exception:
+                self.res.label("rename_data:refused-duplicate")
+                return True
+            self.fail("duplicate-name-accepted", "rename_data", table.data[name]["kind"], "", f"{name} renamed to {new}, a name already used on hole {hole.name}")
+            return True
         if NAME_KIND.get(new) != table.data[name]["kind"]:
             return False  # one concatenated array per label: a name has one kind per group (generator precondition)
         if self.pid != "C04":
